@@ -4,4 +4,5 @@ INVARIANT BytesOK
 INVARIANT Accepted
 INVARIANT RoundTrip
 INVARIANT SameEntries
+INVARIANT TypedOK
 INVARIANT Emit
